@@ -1147,7 +1147,10 @@ class LangServer:
         def create_hover(string: str, docs: str | None):
             # This does not account for Fixed Form Fortran, but it should be
             # okay for 99% of cases
-            return fortran_md(string, docs).format(langid=self.hover_language)
+            # Not str.format: user documentation and code may contain braces
+            return fortran_md(string, docs).replace(
+                "```{langid}", f"```{self.hover_language}", 1
+            )
 
         # Get parameters from request
         params: dict = request["params"]
